@@ -17,7 +17,7 @@ pub mod common;
 #[path = "c18_s1.rs"]
 mod s1;
 #[path = "c18_s2.rs"]
-mod s2;
+pub mod s2;
 #[path = "c18_s3.rs"]
 mod s3;
 #[path = "c18_race.rs"]
@@ -47,6 +47,9 @@ pub struct Obs {
     pub withheld_states: u64,
     pub commits_with_posts: u64,
     pub refusals: u64,
+    /// S2 with the session probe: (event index, event name, next-incoming-id in the listener's answer - None if
+    /// it did not answer, Some(None) if the field was unset -, transfer frames the client had sent)
+    pub session_probes: Vec<(usize, String, Option<Option<u32>>, u32)>,
 }
 
 #[derive(Default)]
